@@ -19,6 +19,7 @@ def run(chk, replay=None, prop="C03"):
     def gen(rnd, max_nodes=4):
         count[0] += 1
         if count[0] % 5 == 3: return buffer_cfg(rnd)
+        if count[0] % 5 == 1: return chain_cfg(rnd)
         return al.gen_cfg(rnd, max_nodes=max_nodes)
     graphs = al.async_suite(chk, n, variants, max_nodes=4 if quick else 5, model_seeds=(1, 2), gen=gen)
     evaluate(chk, graphs, variants, prop)
@@ -90,6 +91,21 @@ def buffer_cfg(rnd):
     return dict(nodes=nodes, conns=conns, sup=sup, steps=rnd.choice([8, 10]), _between={"n0>n1": ec + Ps // 2 + rnd.choice([0, 1])})   # raise by at least one receiver period
 
 
+def chain_cfg(rnd):
+    """a chain of 3-4 nodes whose FIRST node's declared delay the user changes between two episodes: the phases of every node downstream, however far,
+    must follow"""
+    k = rnd.choice([3, 4]); P = rnd.choice([4, 8])
+    nodes = {f"n{i}": dict(nid=i, period=P * rnd.choice([1, 2]) if i else P, exp=rnd.choice([0, 1, 2]), delays=rnd.choice([[1], [0, 1], [1, 2]]), advance=False,
+                           sched=rnd.choice(["FREQ", "PHASE"])) for i in range(k)}
+    conns = {}
+    for i in range(1, k):
+        conns[f"n{i-1}>n{i}"] = dict(out=f"n{i-1}", **{"in": f"n{i}"}, blocking=rnd.random() < 0.4, skip=False, jitter=rnd.choice(["LATEST", "LATEST", "BUFFER"]),
+                                     window=rnd.choice([1, 2]), exp=rnd.choice([0, 1, 2]), delays=rnd.choice([[0], [1], [0, 2]]))
+    if rnd.random() < 0.5:
+        conns[f"n{k-1}>n0"] = dict(out=f"n{k-1}", **{"in": "n0"}, blocking=False, skip=True, jitter="LATEST", window=1, exp=1, delays=[1])
+    return dict(nodes=nodes, conns=conns, sup=f"n{k-1}", steps=rnd.choice([6, 8]), _between={"n0": nodes["n0"]["exp"] + rnd.choice([2, 3])})
+
+
 def second_episode(chk, G, r, prop="C04"):
     """episode 1 after set_delay(delay=...) between the episodes: judged with the phases in force for that episode (reported by the worker
     after the change) by the C04 reference recurrence and against the model run with those phases"""
@@ -99,6 +115,15 @@ def second_episode(chk, G, r, prop="C04"):
     chk.case((repr(cfg), "set_delay_between", repr(G.get("between"))), al.features(cfg) + ["set_delay-between-episodes"], None); chk.traces_impl += 1
     cfg2 = G["cfg_after"]
     case = dict(cfg=cfg, between=G.get("between"), node_phase_after=nph)
+    # the phases in force in the second episode follow from the delays declared NOW (after set_delay), on every node however far downstream
+    try: want_n, want_c = al.cfg_phases(cfg2)
+    except RecursionError: want_n = None
+    if want_n is not None and (want_n != nph or want_c != cph):
+        allw = dict(want_n, **want_c); allg = dict(nph, **cph)
+        bad = next(k for k in allw if allw[k] != allg.get(k))
+        chk.violation("phase-differs-from-declared-delays(after-set_delay)", f"after set_delay({G.get('between')}) the phase of {bad} is {allg.get(bad)}, the declared delays give "
+                      f"{allw[bad]} ticks", case)
+        return
     vs = (ac.check_c03 if prop == "C03" else ac.check_c04)(cfg2, nph, cph, ep["record"])
     for sig, det in vs[:2]: chk.violation(sig + "(after-set_delay)", f"second episode after set_delay(delay=...): {det}", case)
     m = al.run_model([(cfg2, nph, cph, al.limits_of(cfg2, ep), 5)])[0]
